@@ -8,7 +8,7 @@ _ENV["ASAN_OPTIONS"] = ASAN_ENV["ASAN_OPTIONS"] + ":symbolize=0"
 UNITS_LOCAL = {"C20": [
     Unit("images", ["harness/C20_images.cpp"], repo_src=[],
          flags=ASAN, env=_ENV, opt="-O1", engine="gridmc",
-         budget={"quick": 60, "thorough": 600},
+         budget={"quick": 300, "thorough": 900},
          rule="every (writer in {writePPM, writePGM, writePFM<float>, writePFM<vec3f>, writePFM<vec3fa>, writePFM<vec4f>}) x (w,h) in [1,4]^2 (thorough [1,6]^2) "
               "x fill pattern byte[p] = (p*k + t + 91*(p>>8)) mod 256 for t in 0..255, k = 37 (thorough k in {1,37,101,255}) "
               "x placement {heap block of exactly w*h pixels, the same pixels inside a block with 64 filler bytes on each side}; "
@@ -18,4 +18,18 @@ UNITS_LOCAL = {"C20": [
                       "writePPM takes components 0..2, writePFM<vec3fa> components 0..2 of 4",
                       "whitespace after the payload is accepted (the writers append a newline)",
                       "pixel values are not enumerated beyond the 256 (1024) fill patterns: the writer copies components without value-dependent control flow"]),
+    Unit("trace", ["harness/C20_trace.cpp"], repo_src=["rkcommon/tracing/Tracing.cpp"],
+         flags=ASAN, env=_ENV, opt="-O2", engine="seqmc",
+         budget={"quick": 400, "thorough": 1500},
+         rule="histories = (API in {TraceRecorder object + ThreadEventList methods, global functions}) x (processName null / non-null) x (thread names set / not set) x per-thread event words: "
+              "(0) nothing recorded at all; (1) every well-nested word over {begin,end,marker,counter} (end only inside an open begin; open begins may remain) of length <= 5 (thorough 6), "
+              "recorded by T in {1,2,8} (thorough 1..8) threads where thread k records word (i + k*stride) mod N, so every word is seen in every thread position (quick: thread naming alternates with the case index instead of being crossed); "
+              "(2) chunk edges: lengths {0,1,8191,8192,8193,16385} of the periodic pattern lead*marker (begin^d marker counter end^d)* for depth d in 0..4, lead 0 (thorough: for 1 and 2 threads every lead < 2d+2, i.e. every phase of the pattern against the 8192-event chunk), "
+              "T in {1,2,8} (thorough 1..8) threads with thread k using length index li+k, depth d+k, lead o+k. Thread 0 is the process's main thread, the others are std::threads joined before saveLog; every history runs in a forked child. "
+              "The log is parsed by a strict RFC 8259 parser; per thread (matched through the thread_name metadata) the non-metadata, non-built-in events must equal the recorded ones (phase, name, category when given, counter value) in order. "
+              "distinct = distinct (parse result, element count, matched prefix lengths)",
+         assumptions=["event names and categories are static literals without characters that need JSON escaping (the statement does not quantify over names)",
+                      "the writer's own cpuUtilization counters (ph C, cat builtin) and ph M metadata are filtered before comparison",
+                      "threads record concurrently on real threads, each into its own ThreadEventList; no interleaving of registration is enumerated here (that is the threaded unit's job)",
+                      "wall clock and getrusage are the real ones: timestamps and cpuUtilization values are not compared"]),
 ]}
